@@ -29,7 +29,8 @@ MANIFEST = dict(
     technique='Lean 4 theorems on a transcribed report-construction model (exactness of report content, grouping by MDS) and on '
               'an interleaving semantics of writer threads (any number of threads, any schedule; writer program generated from a '
               'lock/send trace of the real commit path) + differential correspondence on wire messages',
-    text='Properties/C04.lean: every report of a transaction carries the committed version group; the states in the reports are '
+    text='Properties/C04.lean + C04Result.lean (25 theorems): the transaction result is truthful and complete w.r.t. the table change '
+         '(reported value = committed value, every changed state / descriptor reported once); every report of a transaction carries the committed version group; the states in the reports are '
          'exactly the states of the transaction result (permutation), each part holds the states of one MDS, description '
          'modification parts are exactly updated/created/deleted descriptors with their states; for any number of writer threads '
          'whose program keeps version write and send inside one critical section (generated program, checked by decide) the '
@@ -38,7 +39,7 @@ MANIFEST = dict(
     note='Partial: XSD validity is not modelled (every captured message is validated with the bundled schemas by the library '
          'validator as supporting evidence). Trusted: Lean kernel, harness, XML reader used to parse the wire messages '
          '(cross-checked by an independent lxml walk of handles and version attributes), fairness/timing of real threads.',
-    ref='5 C04')
+    ref='9 C04')
 RULE = ('one case = one transaction script in a history with all wire messages it produced; distinct by canonical script + '
         'position; non-trivial = at least one call')
 TRUSTED = c02.TRUSTED + ['library XML reader for wire messages (cross-checked with a plain lxml walk)', 'thread scheduling of CPython for the concurrent-writer oracle']
